@@ -122,6 +122,80 @@ private theorem neg_rejected (rest : Bytes) (hany : rest.any (· != 0x30) = true
         simp only [this, if_true]
 
 
+/-- The overflow test of `connectExtractTimeout` is complete: if `wrap64 (10^6·n) / 10^6 = n`
+    (truncated division) then the product did not wrap. -/
+theorem connect_no_silent_wrap (n : Int) (h0 : 0 ≤ n) (h : n < 2^63)
+    (hd : Int.tdiv (wrap64 (1000000 * n)) 1000000 = n) : wrap64 (1000000 * n) = 1000000 * n := by
+  -- wrap64 x = x - k·2^64 for the k below
+  let k := (1000000 * n + 2^63) / 2^64
+  have hk : wrap64 (1000000 * n) = 1000000 * n - k * 2^64 := by
+    unfold wrap64
+    have := Int.emod_def (1000000 * n + 2^63) (2^64)
+    simp only [k]
+    omega
+  have hk0 : 0 ≤ k := Int.ediv_nonneg (by omega) (by decide)
+  by_cases hkz : k = 0
+  · rw [hk, hkz]; simp
+  · exfalso
+    have hk1 : 1 ≤ k := by omega
+    have hr : -2^63 ≤ wrap64 (1000000 * n) ∧ wrap64 (1000000 * n) < 2^63 := by
+      unfold wrap64
+      have h1 := Int.emod_nonneg (1000000 * n + 2^63) (show (2:Int)^64 ≠ 0 by decide)
+      have h2 := Int.emod_lt_of_pos (1000000 * n + 2^63) (show (0:Int) < 2^64 by decide)
+      omega
+    by_cases hpos : 0 ≤ wrap64 (1000000 * n)
+    · rw [Int.tdiv_eq_ediv_of_nonneg hpos] at hd
+      have h1 := Int.ediv_mul_le (wrap64 (1000000 * n)) (show (1000000:Int) ≠ 0 by decide)
+      have h2 := Int.lt_ediv_add_one_mul_self (wrap64 (1000000 * n)) (show (0:Int) < 1000000 by decide)
+      rw [hd] at h1 h2
+      have : k * 2^64 ≥ 2^64 := by
+        have := Int.mul_le_mul_of_nonneg_right hk1 (show (0:Int) ≤ 2^64 by decide)
+        omega
+      omega
+    · have e : wrap64 (1000000 * n) = -(-(wrap64 (1000000 * n))) := by omega
+      rw [e, Int.neg_tdiv, Int.tdiv_eq_ediv_of_nonneg (by omega)] at hd
+      have : 0 ≤ (-wrap64 (1000000 * n)) / 1000000 := Int.ediv_nonneg (by omega) (by decide)
+      have hn : n = 0 := by omega
+      subst hn
+      unfold wrap64 at hpos
+      omega
+
+private theorem connect_overlong_ok (s : Bytes) (n : Nat) (hne : s.isEmpty = false)
+    (hpi : parseInt64 s = if n ≥ 2^63 then none else some (n : Int)) :
+    Spec.overlongOk n (connectExtractTimeout s) = true := by
+  unfold connectExtractTimeout
+  rw [hne, if_neg (by decide), hpi]
+  by_cases h63 : n ≥ 2^63
+  · rw [if_pos h63]; rfl
+  · rw [if_neg h63]
+    have hn0 : ¬ ((n : Int) < 0) := Int.not_lt.mpr (Int.natCast_nonneg n)
+    show Spec.overlongOk n (if (n:Int) < 0 then none else
+      if (Int.tdiv (wrap64 (1000000 * (n:Int))) 1000000 != (n:Int)) = true then some (some maxInt64) else some (some (wrap64 (1000000 * (n:Int))))) = true
+    rw [if_neg hn0]
+    by_cases hdiv : Int.tdiv (wrap64 (1000000 * (n : Int))) 1000000 = n
+    · have hw := connect_no_silent_wrap (n : Int) (Int.natCast_nonneg n) (by omega) hdiv
+      have e : (Int.tdiv (wrap64 (1000000 * (n : Int))) 1000000 != (n : Int)) = false := by
+        rw [hdiv]; exact bne_self_eq_false _
+      rw [e, if_neg (by decide), hw]
+      unfold Spec.overlongOk
+      have h1 : (n : Int) * 1000000 ≤ 1000000 * (n : Int) := by omega
+      have h2 : 1000000 * (n : Int) ≤ (n : Int) * 1000000 := by omega
+      show ((decide (9999999999000000 ≤ 1000000 * (n:Int)) || decide ((n : Int) * 1000000 ≤ 1000000 * (n:Int))) && decide (1000000 * (n:Int) ≤ (n : Int) * 1000000)) = true
+      rw [decide_eq_true h1, decide_eq_true h2, Bool.or_true]; rfl
+    · have hne' : (Int.tdiv (wrap64 (1000000 * (n : Int))) 1000000 != (n : Int)) = true := bne_iff_ne.mpr hdiv
+      rw [hne', if_pos rfl]
+      have hbig : (9223372036854775808:Int) ≤ (n : Int) * 1000000 := by
+        apply Decidable.byContradiction
+        intro hlt
+        apply hdiv
+        have hw : wrap64 (1000000 * (n : Int)) = 1000000 * (n : Int) := by unfold wrap64; omega
+        rw [hw, Int.tdiv_eq_ediv_of_nonneg (by omega)]; omega
+      unfold Spec.overlongOk
+      have h1 : (9999999999000000 : Int) ≤ maxInt64 := by unfold maxInt64; omega
+      have h2 : maxInt64 ≤ (n : Int) * 1000000 := by unfold maxInt64; omega
+      show ((decide (9999999999000000 ≤ maxInt64) || decide ((n : Int) * 1000000 ≤ maxInt64)) && decide (maxInt64 ≤ (n : Int) * 1000000)) = true
+      rw [decide_eq_true h1, decide_eq_true h2, Bool.true_or]; rfl
+
 /-- **Connect-Timeout-Ms, every header value.**  1–10 digits are never rejected and conveyed exactly
     (the int64 overflow test in the source is complete: no valid value wraps); malformed or negative
     values are rejected; an absent header stays absent. -/
@@ -162,7 +236,16 @@ theorem connect_extract_spec (s : Bytes) : Spec.connectExtractOk s (connectExtra
           · simp only [hm, hneg, Bool.or_true, if_true]
             simp only [Bool.and_eq_true, beq_iff_eq] at hneg
             rw [hneg.1, neg_rejected rest hneg.2]; rfl
-          · simp [hm, hneg]
+          · simp only [hm, hneg, Bool.or_false, Bool.false_eq_true, if_false]
+            -- more than ten digits: rejected (≥ 2^63) or conveyed / clamped, never shortened
+            unfold Spec.connectOverlong
+            by_cases ho : (Spec.allDigits (c :: rest) && decide ((c :: rest).length > 10)) = true
+            · rw [if_pos ho]
+              simp only [Bool.and_eq_true, decide_eq_true_eq] at ho
+              obtain ⟨n, hp, _, hpi⟩ := parseInt64_digits (c :: rest) hne ho.1
+              rw [hp]
+              exact connect_overlong_ok (c :: rest) n rfl hpi
+            · rw [if_neg ho]
 /-- **connectEncodeTimeout, every non-negative int64 duration.**  1–10 digits of milliseconds; never
     more than the duration; short by less than one millisecond unless clamped to 9999999999. -/
 theorem connect_encode_spec (d : Int) (h0 : 0 ≤ d) : Spec.connectEncodeOk d (connectEncodeTimeout d) = true := by
